@@ -155,7 +155,7 @@ class Exec:
                 if df["exit"] != 0 or dstate != "COMPLETED":
                     self.violations.append(("C11", "task started although a dependency has not completed successfully",
                                             dict(task=idx, dep=d, dep_exit=df["exit"], dep_state=dstate)))
-            live = [p.tag for p in self.world.live() if not (p.killed or p.terminated)]
+            live = [p.tag for p in self.world.live() if not p.killed]  # SIGTERM may be ignored; SIGKILL may not
             self.max_live = max(self.max_live, len(live))
             if len(live) > self.sc["cores"]:
                 self.violations.append(("C12", "more live task processes than cores", dict(live=live, cores=self.sc["cores"])))
